@@ -1,3 +1,474 @@
 package main
 
-func c01Families(c *Check) []BashCase { return nil }
+import (
+	"fmt"
+	"math"
+)
+
+// ---- small AST constructors ----
+
+func vr(n string) Expr                { return VarRef{n} }
+func il(v int64) Expr                 { return IntLit{v} }
+func bl(v bool) Expr                  { return BoolLit{v} }
+func sl(v string) Expr                { return StrLit{V: v} }
+func def(name string, e Expr) Stmt    { return VarDecl{Names: []string{name}, Short: true, Values: []Expr{e}} }
+func set(name string, e Expr) Stmt    { return Assign{[]string{name}, []Expr{e}} }
+func pr(args ...Expr) Stmt            { return Print{args} }
+func ifs(c Expr, body ...Stmt) Stmt   { return If{Branches: []IfBranch{{c, body}}} }
+func cmp(op string, l, r Expr) Expr   { return Cmp{op, l, r} }
+func bin(op string, l, r Expr) Expr   { return Bin{op, l, r} }
+func logic(op string, l, r Expr) Expr { return Logic{op, l, r} }
+
+var allBinOps = []string{"*", "/", "%", "+", "-", "==", "!=", "<", "<=", ">", ">=", "&&", "||"}
+
+func evalPrint(stmts []Stmt) (string, bool) {
+	r := Interpret(SingleFile(stmts), 64, 5000)
+	return r.Stdout, r.Undefined == ""
+}
+
+func litOf(t Type, v interface{}) Expr {
+	if t == TInt {
+		return il(v.(int64))
+	}
+	return bl(v.(bool))
+}
+
+// f1OperatorChains: a op1 b op2 c (and longer chains) without parentheses.
+func f1OperatorChains(nops int, thorough bool) []BashCase {
+	cases := []BashCase{}
+	intVals := []int64{7, 3, 2, -5, 1, 12, 0, -1}
+	boolVals := []bool{true, false}
+	names := []string{"a", "b", "c", "d"}
+	var opsets [][]string
+	var rec func(cur []string)
+	rec = func(cur []string) {
+		if len(cur) == nops {
+			opsets = append(opsets, append([]string{}, cur...))
+			return
+		}
+		for _, op := range allBinOps {
+			rec(append(cur, op))
+		}
+	}
+	rec(nil)
+	for _, ops := range opsets {
+		// search operand typings under which the flat parse type-checks
+		nopd := nops + 1
+		for mask := 0; mask < 1<<nopd; mask++ {
+			types := make([]Type, nopd)
+			env := &TypeEnv{Vars: map[string]Type{}}
+			operands := make([]Expr, nopd)
+			for i := 0; i < nopd; i++ {
+				types[i] = TInt
+				if mask>>i&1 == 1 {
+					types[i] = TBool
+				}
+				env.Vars[names[i]] = types[i]
+				operands[i] = vr(names[i])
+			}
+			ast := parseFlat(operands, ops)
+			rt, err := env.typeOf(ast)
+			if err != nil {
+				continue
+			}
+			_ = rt
+			// alternative groupings (for 2 ops: the other association)
+			var alts []Expr
+			if nops == 2 {
+				l := Group{parseFlat(operands[:2], ops[:1])}
+				r := Group{parseFlat(operands[1:], ops[1:])}
+				for _, alt := range []Expr{parseFlat([]Expr{l, operands[2]}, ops[1:]), parseFlat([]Expr{operands[0], r}, ops[:1])} {
+					if _, err := env.typeOf(alt); err == nil {
+						alts = append(alts, alt)
+					}
+				}
+			}
+			// choose value tuples, preferring those that separate the groupings
+			type tuple struct {
+				vals  []interface{}
+				score int
+			}
+			var tuples []tuple
+			var gen func(i int, cur []interface{})
+			gen = func(i int, cur []interface{}) {
+				if i == nopd {
+					stm := []Stmt{}
+					for k := range cur {
+						stm = append(stm, def(names[k], litOf(types[k], cur[k])))
+					}
+					want, ok := evalPrint(append(append([]Stmt{}, stm...), pr(ast)))
+					if !ok {
+						return
+					}
+					score := 0
+					for _, alt := range alts {
+						got, ok2 := evalPrint(append(append([]Stmt{}, stm...), pr(alt)))
+						if ok2 && got != want {
+							score++
+						}
+					}
+					tuples = append(tuples, tuple{append([]interface{}{}, cur...), score})
+					return
+				}
+				if types[i] == TInt {
+					for _, v := range intVals {
+						gen(i+1, append(cur, v))
+					}
+				} else {
+					for _, v := range boolVals {
+						gen(i+1, append(cur, v))
+					}
+				}
+			}
+			gen(0, nil)
+			if len(tuples) == 0 {
+				continue
+			}
+			// take the best 3 tuples (stable order)
+			best := []tuple{}
+			for want := len(alts); want >= 0 && len(best) < 3; want-- {
+				for _, t := range tuples {
+					if t.score == want && len(best) < 3 {
+						best = append(best, t)
+					}
+				}
+			}
+			stmts := []Stmt{}
+			for k := 0; k < nopd; k++ {
+				stmts = append(stmts, VarDecl{Names: []string{names[k]}, Type: types[k]})
+			}
+			for _, t := range best {
+				lits := make([]Expr, nopd)
+				for k := range t.vals {
+					lits[k] = litOf(types[k], t.vals[k])
+					stmts = append(stmts, set(names[k], lits[k]))
+				}
+				stmts = append(stmts, pr(ast))
+				stmts = append(stmts, pr(parseFlat(lits, ops))) // literal spelling of the same expression
+			}
+			key := fmt.Sprintf("F1/ops=%v/types=%v", ops, types)
+			cases = append(cases, BashCase{Key: key, Prog: SingleFile(stmts)})
+		}
+	}
+	return cases
+}
+
+func f1Unary() []BashCase {
+	cases := []BashCase{}
+	a, b := vr("a"), vr("b")
+	exprs := []Expr{
+		Logic{"&&", Not{a}, b}, Logic{"||", Not{a}, b}, Cmp{"==", Not{a}, b}, Cmp{"!=", Not{a}, Not{b}},
+		Not{Group{Logic{"&&", a, b}}}, Not{Group{Logic{"||", a, b}}}, Not{Group{Cmp{"==", a, b}}}, Not{Not{a}}, Not{Not{Not{b}}},
+		Logic{"||", a, Logic{"&&", Not{a}, Not{b}}}, Not{Group{Cmp{"<", il(1), il(2)}}}, Logic{"&&", Not{BoolLit{false}}, a},
+		Cmp{"==", Cmp{"<", il(1), il(2)}, a}, Cmp{"!=", Cmp{">=", il(1), il(2)}, Not{a}},
+	}
+	for i, e := range exprs {
+		stmts := []Stmt{VarDecl{Names: []string{"a", "b"}, Type: TBool}}
+		for _, av := range []bool{false, true} {
+			for _, bv := range []bool{false, true} {
+				stmts = append(stmts, set("a", bl(av)), set("b", bl(bv)), pr(e))
+			}
+		}
+		cases = append(cases, BashCase{Key: fmt.Sprintf("F1/unary/%d/%s", i, renderExpr(e)), Prog: SingleFile(stmts)})
+	}
+	return cases
+}
+
+// f2ArithmeticEdges: every operator on edge values, variable and literal spelling.
+func f2ArithmeticEdges() []BashCase {
+	vals := []int64{0, 1, -1, 2, -2, 7, -7, 10, math.MaxInt64, math.MinInt64, math.MaxInt64 - 1, math.MinInt64 + 1, 1 << 31, -(1 << 31), 1 << 32, 3037000500, -3037000500, 4611686018427387904}
+	cases := []BashCase{}
+	for _, op := range []string{"+", "-", "*", "/", "%"} {
+		for ai, a := range vals {
+			stmts := []Stmt{VarDecl{Names: []string{"x", "y"}, Type: TInt}}
+			n := 0
+			for _, b := range vals {
+				probe := []Stmt{pr(bin(op, il(a), il(b)))}
+				if _, ok := evalPrint(probe); !ok {
+					continue
+				}
+				stmts = append(stmts, set("x", il(a)), set("y", il(b)), pr(bin(op, vr("x"), vr("y")), bin(op, il(a), il(b)), bin(op, vr("x"), il(b))))
+				n++
+			}
+			if n > 0 {
+				cases = append(cases, BashCase{Key: fmt.Sprintf("F2/%s/a#%d=%d", op, ai, a), Prog: SingleFile(stmts)})
+			}
+		}
+	}
+	// compound forms and ++/-- at the edges
+	for i, a := range vals {
+		stmts := []Stmt{def("x", il(a)), IncDec{"x", true}, pr(vr("x")), set("x", il(a)), IncDec{"x", false}, pr(vr("x"))}
+		for _, op := range []string{"+", "-", "*", "/", "%"} {
+			for _, b := range []int64{3, -3, math.MaxInt64} {
+				if _, ok := evalPrint([]Stmt{pr(bin(op, il(a), il(b)))}); !ok {
+					continue
+				}
+				stmts = append(stmts, set("x", il(a)), OpAssign{"x", op, il(b)}, pr(vr("x")))
+			}
+		}
+		cases = append(cases, BashCase{Key: fmt.Sprintf("F2/compound/a#%d=%d", i, a), Prog: SingleFile(stmts)})
+	}
+	return cases
+}
+
+// f3LastStatement: every statement kind as last statement pins the exit status.
+func f3LastStatement() []BashCase {
+	pre := func() []Stmt {
+		return []Stmt{def("x", il(3)), def("b", bl(false)), def("s", sl("abc")), pr(vr("x"), vr("b"), vr("s"))}
+	}
+	loop0 := For{Kind: ForThree, Init: def("i", il(0)), Cond: cmp("<", vr("i"), il(0)), Post: IncDec{"i", true}, Body: []Stmt{pr(vr("i"))}}
+	loopBrk := For{Kind: ForEver, Body: []Stmt{Break{}}}
+	loopCond := For{Kind: ForCond, Cond: cmp(">", vr("x"), il(0)), Body: []Stmt{IncDec{"x", false}}}
+	lasts := map[string][]Stmt{
+		"assign-zero":      {set("x", il(0))},
+		"assign-false":     {set("b", bl(false))},
+		"assign-empty":     {set("s", sl(""))},
+		"dec":              {IncDec{"x", false}},
+		"inc":              {IncDec{"x", true}},
+		"opassign-to-zero": {OpAssign{"x", "-", il(3)}},
+		"mod-zero-result":  {OpAssign{"x", "%", il(3)}},
+		"decl-default":     {VarDecl{Names: []string{"z"}, Type: TInt}},
+		"decl-false-cmp":   {def("z", cmp("<", vr("x"), il(1)))},
+		"decl-false-logic": {def("z", logic("&&", vr("b"), bl(true)))},
+		"decl-not":         {def("z", Not{bl(true)})},
+		"decl-concat":      {def("z", bin("+", vr("s"), sl("")))},
+		"if-not-taken":     {ifs(vr("b"), pr(il(1)))},
+		"if-taken":         {ifs(Not{vr("b")}, pr(il(1)))},
+		"if-taken-false-inside": {ifs(Not{vr("b")}, set("b", bl(false)))},
+		"if-else":          {If{Branches: []IfBranch{{vr("b"), []Stmt{pr(il(1))}}}, HasElse: true, Else: []Stmt{set("x", il(0))}}},
+		"if-elseif-none":   {If{Branches: []IfBranch{{vr("b"), []Stmt{pr(il(1))}}, {cmp(">", vr("x"), il(5)), []Stmt{pr(il(2))}}}}},
+		"empty-if":         {If{Branches: []IfBranch{{Not{vr("b")}, nil}}}},
+		"loop-zero-iter":   {loop0},
+		"loop-break":       {loopBrk},
+		"loop-cond-ends":   {loopCond},
+		"switch-no-match":  {Switch{Tag: vr("x"), Cases: []SwitchCase{{E: il(1), Body: []Stmt{pr(il(1))}}}}},
+		"switch-match":     {Switch{Tag: vr("x"), Cases: []SwitchCase{{E: il(3), Body: []Stmt{set("x", il(0))}}}}},
+		"switch-empty":     {Switch{Tag: vr("x")}},
+		"switch-default":   {Switch{Cases: []SwitchCase{{Default: true, Body: []Stmt{set("b", bl(false))}}}}},
+		"print":            {pr(vr("x"))},
+		"print-empty":      {pr()},
+		"print-false":      {pr(bl(false))},
+		"print-emptystr":   {pr(sl(""))},
+		"itoa":             {def("z", Itoa{vr("x")})},
+		"panic-top":        {Panic{sl("boom")}, pr(sl("not reached"))},
+		"panic-in-if":      {ifs(Not{vr("b")}, Panic{sl("in if")}), pr(sl("not reached"))},
+		"panic-in-else":    {If{Branches: []IfBranch{{vr("b"), []Stmt{pr(il(1))}}}, HasElse: true, Else: []Stmt{Panic{sl("in else")}}}, pr(sl("not reached"))},
+		"panic-in-loop":    {For{Kind: ForThree, Init: def("i", il(0)), Cond: cmp("<", vr("i"), il(3)), Post: IncDec{"i", true}, Body: []Stmt{pr(vr("i")), ifs(cmp("==", vr("i"), il(1)), Panic{bin("+", sl("at "), Itoa{vr("i")})})}}, pr(sl("not reached"))},
+		"panic-in-switch":  {Switch{Tag: vr("x"), Cases: []SwitchCase{{E: il(3), Body: []Stmt{Panic{vr("s")}}}}}, pr(sl("not reached"))},
+		"panic-nested":     {For{Kind: ForCond, Cond: bl(true), Body: []Stmt{ifs(bl(true), Switch{Cases: []SwitchCase{{Default: true, Body: []Stmt{Panic{sl("deep")}}}}})}}},
+		"panic-not-taken":  {ifs(vr("b"), Panic{sl("never")})},
+		"panic-int-msg":    {Panic{Itoa{vr("x")}}},
+	}
+	cases := []BashCase{}
+	for _, name := range sortedStmtKeys(lasts) {
+		cases = append(cases, BashCase{Key: "F3/last/" + name, Prog: SingleFile(append(pre(), lasts[name]...))})
+	}
+	return cases
+}
+
+func sortedStmtKeys(m map[string][]Stmt) []string {
+	tmp := map[string]string{}
+	for k := range m {
+		tmp[k] = ""
+	}
+	return sortedKeys(tmp)
+}
+
+// ---- F4 loop skeletons ----
+
+const nLoopForms = 6
+
+// loopForm renders loop form f with counter name ctr, bound k and body.
+// In every form the counter is advanced before the body can `continue`.
+func loopForm(f int, ctr string, k int64, body []Stmt) []Stmt {
+	K := il(k)
+	switch f {
+	case 0:
+		return []Stmt{For{Kind: ForThree, Init: def(ctr, il(0)), Cond: cmp("<", vr(ctr), K), Post: IncDec{ctr, true}, Body: body}}
+	case 1:
+		return []Stmt{def(ctr, il(0)), For{Kind: ForCond, Cond: cmp("<", vr(ctr), K), Body: append([]Stmt{IncDec{ctr, true}}, body...)}}
+	case 2:
+		return []Stmt{def(ctr, il(0)), For{Kind: ForEver, Body: append([]Stmt{IncDec{ctr, true}, ifs(cmp(">", vr(ctr), K), Break{})}, body...)}}
+	case 3:
+		return []Stmt{For{Kind: ForThree, Init: def(ctr, K), Cond: cmp(">", vr(ctr), il(0)), Post: IncDec{ctr, false}, Body: body}}
+	case 4:
+		return []Stmt{def(ctr, il(0)), For{Kind: ForThree, Cond: cmp("<", vr(ctr), K), Body: append([]Stmt{OpAssign{ctr, "+", il(1)}}, body...)}}
+	case 5:
+		return []Stmt{VarDecl{Names: []string{ctr}, Type: TInt}, For{Kind: ForThree, Init: set(ctr, il(0)), Post: set(ctr, bin("+", vr(ctr), il(1))), Body: append([]Stmt{ifs(cmp(">=", vr(ctr), K), Break{})}, body...)}}
+	}
+	panic("loopForm")
+}
+
+var jumpKinds = []string{"none", "break-before", "continue-before", "break-after", "continue-after", "continue-in-elseif", "break-in-else", "continue-in-switch", "both"}
+
+// jumpBody builds an outer-loop body around `inner` with the given jump kind.
+func jumpBody(kind string, ctr string, inner []Stmt) []Stmt {
+	c1 := cmp("==", bin("%", vr(ctr), il(2)), il(0))
+	c2 := cmp("==", vr(ctr), il(2))
+	head := pr(sl("o"), vr(ctr))
+	tail := pr(sl("t"), vr(ctr))
+	switch kind {
+	case "none":
+		return append(append([]Stmt{head}, inner...), tail)
+	case "break-before":
+		return append(append([]Stmt{head, ifs(c2, Break{})}, inner...), tail)
+	case "continue-before":
+		return append(append([]Stmt{head, ifs(c1, Continue{})}, inner...), tail)
+	case "break-after":
+		return append(append([]Stmt{head}, inner...), ifs(c2, Break{}), tail)
+	case "continue-after":
+		return append(append([]Stmt{head}, inner...), ifs(c1, Continue{}), tail)
+	case "continue-in-elseif":
+		chain := If{Branches: []IfBranch{{cmp("==", vr(ctr), il(99)), []Stmt{pr(sl("never"))}}, {c1, []Stmt{pr(sl("c"), vr(ctr)), Continue{}}}}, HasElse: true, Else: []Stmt{pr(sl("e"), vr(ctr))}}
+		return append(append([]Stmt{head}, inner...), chain, tail)
+	case "break-in-else":
+		chain := If{Branches: []IfBranch{{cmp("<", vr(ctr), il(2)), []Stmt{pr(sl("lt"), vr(ctr))}}, {cmp("==", vr(ctr), il(99)), []Stmt{pr(sl("never"))}}}, HasElse: true, Else: []Stmt{pr(sl("brk"), vr(ctr)), Break{}}}
+		return append(append([]Stmt{head}, inner...), chain, tail)
+	case "continue-in-switch":
+		sw := Switch{Tag: bin("%", vr(ctr), il(3)), Cases: []SwitchCase{{E: il(0), Body: []Stmt{pr(sl("s0"), vr(ctr))}}, {E: il(1), Body: []Stmt{pr(sl("s1"), vr(ctr)), Continue{}}}, {Default: true, Body: []Stmt{pr(sl("sd"), vr(ctr))}}}}
+		return append(append([]Stmt{head}, inner...), sw, tail)
+	case "both":
+		return append(append([]Stmt{head, ifs(c1, Continue{})}, inner...), ifs(c2, Break{}), tail)
+	}
+	panic("jumpBody")
+}
+
+func f4LoopSkeletons(thorough bool) []BashCase {
+	cases := []BashCase{}
+	// depth 1: every form x every jump kind
+	for f := 0; f < nLoopForms; f++ {
+		for _, jk := range jumpKinds {
+			body := jumpBody(jk, "i", nil)
+			stmts := append(loopForm(f, "i", 4, body), pr(sl("end")))
+			cases = append(cases, BashCase{Key: fmt.Sprintf("F4/d1/form=%d/%s", f, jk), Prog: SingleFile(stmts)})
+		}
+	}
+	// depth 2 nested and sequential
+	for o := 0; o < nLoopForms; o++ {
+		for n := 0; n < nLoopForms; n++ {
+			for ji, jk := range jumpKinds {
+				innerBody := jumpBody(jumpKinds[(ji+o+n)%len(jumpKinds)], "j", nil)
+				inner := loopForm(n, "j", 3, innerBody)
+				body := jumpBody(jk, "i", inner)
+				stmts := append(loopForm(o, "i", 4, body), pr(sl("end")))
+				cases = append(cases, BashCase{Key: fmt.Sprintf("F4/d2/outer=%d/inner=%d/%s", o, n, jk), Prog: SingleFile(stmts)})
+			}
+			// sequential: the second loop must not be disturbed by the first
+			s1 := loopForm(o, "i", 3, jumpBody("continue-before", "i", nil))
+			s2 := loopForm(n, "j", 3, jumpBody("break-after", "j", nil))
+			stmts := append(append(s1, s2...), pr(sl("end")))
+			cases = append(cases, BashCase{Key: fmt.Sprintf("F4/seq/first=%d/second=%d", o, n), Prog: SingleFile(stmts)})
+			// loop inside an if inside a loop, with a sibling loop afterwards
+			mid := []Stmt{If{Branches: []IfBranch{{cmp("!=", vr("i"), il(1)), loopForm(n, "j", 2, []Stmt{pr(sl("n"), vr("i"), vr("j"))})}}, HasElse: true, Else: []Stmt{pr(sl("skip"), vr("i"))}}}
+			mid = append(mid, loopForm((n+1)%nLoopForms, "k", 2, []Stmt{pr(sl("k"), vr("i"), vr("k"))})...)
+			stmts = append(loopForm(o, "i", 3, jumpBody("continue-after", "i", mid)), pr(sl("end")))
+			cases = append(cases, BashCase{Key: fmt.Sprintf("F4/mixed/outer=%d/inner=%d", o, n), Prog: SingleFile(stmts)})
+		}
+	}
+	if thorough {
+		for o := 0; o < nLoopForms; o++ {
+			for m := 0; m < nLoopForms; m++ {
+				for n := 0; n < nLoopForms; n++ {
+					jk := jumpKinds[(o*7+m*3+n)%len(jumpKinds)]
+					jk2 := jumpKinds[(o+m*5+n*2)%len(jumpKinds)]
+					in3 := loopForm(n, "k", 2, []Stmt{pr(sl("k"), vr("i"), vr("j"), vr("k"))})
+					in2 := loopForm(m, "j", 3, jumpBody(jk2, "j", in3))
+					stmts := append(loopForm(o, "i", 3, jumpBody(jk, "i", in2)), pr(sl("end")))
+					cases = append(cases, BashCase{Key: fmt.Sprintf("F4/d3/%d/%d/%d/%s/%s", o, m, n, jk, jk2), Prog: SingleFile(stmts)})
+				}
+			}
+		}
+	}
+	return cases
+}
+
+// ---- F5 switch forms ----
+
+func f5Switch() []BashCase {
+	cases := []BashCase{}
+	type tagKind struct {
+		name  string
+		t     Type
+		tag   func() Expr
+		setup func(target int) []Stmt // make the tag match case index target (-1 = none)
+		caseE func(i int) Expr
+	}
+	kinds := []tagKind{
+		{"int-var", TInt, func() Expr { return vr("x") }, func(t int) []Stmt { return []Stmt{def("x", il(int64(10 + t)))} }, func(i int) Expr { return il(int64(10 + i)) }},
+		{"int-computed", TInt, func() Expr { return bin("+", vr("x"), il(1)) }, func(t int) []Stmt { return []Stmt{def("x", il(int64(9 + t))), def("y", il(5))} }, func(i int) Expr { return bin("+", vr("y"), il(int64(5+i))) }},
+		{"string-var", TString, func() Expr { return vr("s") }, func(t int) []Stmt {
+			if t < 0 {
+				return []Stmt{def("s", sl("none"))}
+			}
+			return []Stmt{def("s", sl(fmt.Sprintf("k%d", t)))}
+		}, func(i int) Expr { return sl(fmt.Sprintf("k%d", i)) }},
+		{"bool-true", TBool, func() Expr { return bl(true) }, func(t int) []Stmt { return []Stmt{def("x", il(int64(t)))} }, func(i int) Expr { return cmp("==", vr("x"), il(int64(i))) }},
+		{"tagless", TBool, func() Expr { return nil }, func(t int) []Stmt { return []Stmt{def("x", il(int64(t)))} }, func(i int) Expr { return cmp("==", vr("x"), il(int64(i))) }},
+		{"bool-var", TBool, func() Expr { return vr("b") }, func(t int) []Stmt { return []Stmt{def("b", bl(false)), def("x", il(int64(t)))} }, func(i int) Expr { return cmp("!=", vr("x"), il(int64(i))) }},
+	}
+	for _, k := range kinds {
+		for ncases := 0; ncases <= 3; ncases++ {
+			for defPos := -1; defPos <= ncases; defPos++ {
+				for target := -1; target < ncases; target++ {
+					if k.name == "bool-var" && target >= 0 && ncases > 1 {
+						continue // with != more than one case may match; first match wins, covered by target=-1
+					}
+					stmts := k.setup(target)
+					sw := Switch{Tag: k.tag()}
+					for i := 0; i <= ncases; i++ {
+						if i == defPos {
+							sw.Cases = append(sw.Cases, SwitchCase{Default: true, Body: []Stmt{pr(sl("default"))}})
+						}
+						if i < ncases {
+							sw.Cases = append(sw.Cases, SwitchCase{E: k.caseE(i), Body: []Stmt{pr(sl("case"), il(int64(i)))}})
+						}
+					}
+					stmts = append(stmts, sw, pr(sl("after")))
+					cases = append(cases, BashCase{Key: fmt.Sprintf("F5/%s/cases=%d/default@%d/match=%d", k.name, ncases, defPos, target), Prog: SingleFile(stmts)})
+				}
+			}
+		}
+	}
+	return cases
+}
+
+// ---- F6 definition forms ----
+
+func f6Definitions() []BashCase {
+	progs := map[string][]Stmt{
+		"defaults": {VarDecl{Names: []string{"a"}, Type: TInt}, VarDecl{Names: []string{"b"}, Type: TBool}, VarDecl{Names: []string{"s"}, Type: TString}, VarDecl{Names: []string{"e"}, Type: TString, ErrTy: true},
+			pr(vr("a"), vr("b"), sl("["+""), vr("s"), sl("]"), cmp("==", vr("e"), NilLit{}), cmp("==", vr("s"), sl("")))},
+		"multi-default":  {VarDecl{Names: []string{"a", "b", "c"}, Type: TInt}, VarDecl{Names: []string{"p", "q"}, Type: TBool}, pr(vr("a"), vr("b"), vr("c"), vr("p"), vr("q"))},
+		"multi-typed":    {VarDecl{Names: []string{"a", "b"}, Type: TInt, Values: []Expr{il(1), il(2)}}, VarDecl{Names: []string{"s", "t"}, Type: TString, Values: []Expr{sl("x"), sl("y z")}}, pr(vr("a"), vr("b"), vr("s"), vr("t"))},
+		"var-untyped":    {VarDecl{Names: []string{"a"}, Values: []Expr{il(5)}}, VarDecl{Names: []string{"b"}, Values: []Expr{cmp("<", vr("a"), il(9))}}, VarDecl{Names: []string{"s"}, Values: []Expr{bin("+", sl("n="), Itoa{vr("a")})}}, pr(vr("a"), vr("b"), vr("s"))},
+		"var-untyped-multi": {VarDecl{Names: []string{"x", "y"}, Values: []Expr{il(1), bl(true)}}, pr(vr("x"), vr("y"))},
+		"short-multi":    {VarDecl{Names: []string{"a", "s", "b"}, Short: true, Values: []Expr{il(1), sl("two"), bl(true)}}, pr(vr("a"), vr("s"), vr("b"))},
+		"short-partial":  {VarDecl{Names: []string{"a", "b"}, Short: true, Values: []Expr{il(1), il(2)}}, VarDecl{Names: []string{"a", "c"}, Short: true, Values: []Expr{il(3), il(4)}}, VarDecl{Names: []string{"d", "b"}, Short: true, Values: []Expr{il(5), il(6)}}, pr(vr("a"), vr("b"), vr("c"), vr("d"))},
+		"short-partial-in-block": {ifs(bl(true), VarDecl{Names: []string{"a", "b"}, Short: true, Values: []Expr{il(1), il(2)}}, VarDecl{Names: []string{"a", "c"}, Short: true, Values: []Expr{bin("+", vr("b"), il(10)), bin("*", vr("b"), il(7))}}, pr(vr("a"), vr("b"), vr("c")))},
+		"redefine-in-sibling-blocks": {ifs(bl(true), def("t", il(1)), pr(vr("t"))), ifs(bl(true), def("t", sl("str")), pr(vr("t"))), def("t", bl(true)), pr(vr("t"))},
+		"loop-body-redefinition": {For{Kind: ForThree, Init: def("i", il(0)), Cond: cmp("<", vr("i"), il(3)), Post: IncDec{"i", true}, Body: []Stmt{VarDecl{Names: []string{"z"}, Type: TInt}, pr(vr("z")), set("z", bin("+", vr("i"), il(5))), pr(vr("z"))}}},
+		"error-nil":      {VarDecl{Names: []string{"e"}, Type: TString, ErrTy: true}, pr(cmp("==", vr("e"), NilLit{})), set("e", sl("failed")), pr(cmp("!=", vr("e"), NilLit{}), vr("e")), set("e", NilLit{}), pr(cmp("==", vr("e"), NilLit{}))},
+		"string-compound": {def("s", sl("a")), OpAssign{"s", "+", sl("b")}, OpAssign{"s", "+", vr("s")}, pr(vr("s"), cmp("==", vr("s"), sl("abab")), cmp("!=", vr("s"), sl("abab")))},
+		"bool-ops":       {def("t", bl(true)), def("f", bl(false)), pr(cmp("==", vr("t"), vr("f")), cmp("!=", vr("t"), vr("f")), cmp("==", vr("f"), vr("f")), Not{vr("t")}, Not{vr("f")})},
+	}
+	cases := []BashCase{}
+	for _, k := range sortedStmtKeys(progs) {
+		cases = append(cases, BashCase{Key: "F6/" + k, Prog: SingleFile(progs[k])})
+	}
+	return cases
+}
+
+func c01Families(c *Check) []BashCase {
+	cases := []BashCase{}
+	cases = append(cases, f1OperatorChains(2, c.Thorough())...)
+	cases = append(cases, f1Unary()...)
+	cases = append(cases, f2ArithmeticEdges()...)
+	cases = append(cases, f3LastStatement()...)
+	cases = append(cases, f4LoopSkeletons(c.Thorough())...)
+	cases = append(cases, f5Switch()...)
+	cases = append(cases, f6Definitions()...)
+	if c.Thorough() {
+		cases = append(cases, f1OperatorChains(3, true)...)
+	}
+	return cases
+}
